@@ -251,3 +251,86 @@ Theorem C16_rq_example_rejected :
   rq_spec_b ents [] [EKill 1 false; EStart 0 1 true] [] = false.
 Proof. exact rq_example_rejected. Qed.
 Print Assumptions C16_rq_example_rejected.
+
+(* ---------------------------------------------------------------------------------------------- *)
+(* The container queue (lib/dispatchcloud/container/queue.go) between ChooseInstanceType and the   *)
+(* scheduler: one Update of the queue built with the dispatcher's typeChooser, model/C16_cq.v.     *)
+(* [ord u] is the order in which the chooseType call for container u iterated over the table (any  *)
+(* permutation), [cons] the containers' constraints, [db] the API server's records, [cur] the cache *)
+(* before, [faults] the requests of the cancel goroutines that the API server refuses.             *)
+From AV Require Import model.C16_cq model.C16_cq_run proofs.C16_cq.
+
+(* the boolean specification that judges the observed queue / API requests is the Prop-level one *)
+Theorem C16_cq_spec_reflects : forall c, C16_cq_run.spec_b c = true <-> CqSpec c.
+Proof. exact cq_spec_reflects. Qed.
+Print Assumptions C16_cq_spec_reflects.
+
+(* first half of the property at the queue layer, for all tables, databases, caches, fault assignments and
+   iteration orders: after an Update every entry carries a configured type that satisfies its container's
+   constraints and none cheaper does, no Queued/Locked entry carries the zero InstanceType, and an
+   unsatisfiable container that arrives Queued or Locked ends Cancelled with ChooseInstanceType's error in
+   runtime_status unless the API server refused a request.  Hypotheses: the cache before is the result of
+   earlier Updates (its typed entries are well typed), and a container first seen Running or later does not
+   return to Queued/Locked *)
+Theorem C16_cq_update_meets_spec : forall reserve ts ord cons faults,
+  NoDup (map it_id ts) -> (forall u, Permutation (ord u) ts) ->
+  forall db cur,
+  (forall e, In e cur -> forall id, ce_type e = Some id -> type_ok reserve ts (cons_of cons (ce_uuid e)) id) ->
+  (forall e d, In e cur -> ce_type e = None -> find_d (ce_uuid e) db = Some d -> waiting_st (cd_state d) = false) ->
+  CqSpec (mkcq ts reserve cons db cur faults
+               (cache_after reserve ord cons db cur) (calls_after reserve ord cons faults db cur)
+               (db_after reserve ord cons faults db cur) true).
+Proof. exact cq_update_meets_spec. Qed.
+Print Assumptions C16_cq_update_meets_spec.
+
+(* never an arbitrary type: a container that is not yet cached, is Queued or Locked, and for which the
+   chooseType call returns no type, is not handed to the scheduler by this Update ... *)
+Theorem C16_cq_unsat_not_queued : forall reserve ord cons db cur d,
+  In d db -> NoDup (map cd_uuid db) -> find_e (cd_uuid d) cur = None -> waiting_st (cd_state d) = true ->
+  (forall t, choose reserve (ord (cd_uuid d)) (cons_of cons (cd_uuid d)) <> Chosen t) ->
+  forall e, In e (cache_after reserve ord cons db cur) -> ce_uuid e <> cd_uuid d.
+Proof. exact cq_unsat_not_queued. Qed.
+Print Assumptions C16_cq_unsat_not_queued.
+
+(* ... it gets the error: [lock if Queued,] runtime_status.error := the error's message, cancel *)
+Theorem C16_cq_unsat_gets_error : forall reserve ord cons faults db cur d,
+  In d db -> offered d = true -> find_e (cd_uuid d) cur = None -> waiting_st (cd_state d) = true ->
+  (forall t, choose reserve (ord (cd_uuid d)) (cons_of cons (cd_uuid d)) <> Chosen t) ->
+  exists k, (k = 1%N \/ k = 2%N) /\
+    In (cd_uuid d, fst (cancel_run d k (fault_of faults (cd_uuid d)))) (calls_after reserve ord cons faults db cur) /\
+    (fault_of faults (cd_uuid d) = 0%N ->
+     fst (cancel_run d k 0%N) = (if cstate_eqb (cd_state d) Queued then [ALock true] else []) ++ [ASetErr k true; ACancel true]).
+Proof. exact cq_unsat_gets_error. Qed.
+Print Assumptions C16_cq_unsat_gets_error.
+
+(* a type handed to the scheduler for a newly seen container is ChooseInstanceType's answer for it *)
+Theorem C16_cq_chosen_type_ok : forall reserve ts ord cons,
+  NoDup (map it_id ts) -> (forall u, Permutation (ord u) ts) ->
+  forall u t, choose reserve (ord u) (cons_of cons u) = Chosen t -> type_ok reserve ts (cons_of cons u) (it_id t).
+Proof. exact chosen_type_ok. Qed.
+Print Assumptions C16_cq_chosen_type_ok.
+
+(* satisfiable and not vacuous; an observation with the unsatisfiable Locked container queued with the zero
+   type, or silently dropped, or with a cheaper-than-adequate type, is rejected *)
+Theorem C16_cq_example :
+  let ts := [T 0 1 2000 1 0 false; T 1 2 4000 2 0 false] in
+  let cons := [(1%N, mkctr 1000 0 1 [] EmptyString false); (2%N, mkctr 1000 0 4 [] EmptyString false);
+               (3%N, mkctr 1000 0 4 [] EmptyString false)] in
+  let db := [DB 1 1 5 true 0; DB 2 1 5 true 0; DB 3 0 5 false 0] in
+  let c := cq_model_case 0 ts (fun _ => ts) cons [] db [] in
+  co_cur c = [CE 1 1 5 (Some 0%N)] /\
+  co_calls c = [(2%N, [ASetErr 1 true; ACancel true]); (3%N, [ALock true; ASetErr 1 true; ACancel true])] /\
+  co_db c = [DB 1 1 5 true 0; DB 2 4 5 false 1; DB 3 4 5 false 1] /\
+  C16_cq_run.spec_b c = true /\ C16_cq_run.model_b c = true.
+Proof. exact cq_example. Qed.
+Print Assumptions C16_cq_example.
+
+Theorem C16_cq_example_rejected :
+  let ts := [T 0 1 2000 1 0 false; T 1 2 4000 2 0 false] in
+  let cons := [(1%N, mkctr 1000 0 1 [] EmptyString false); (2%N, mkctr 1000 0 4 [] EmptyString false)] in
+  let db := [DB 1 1 5 true 0; DB 2 1 5 true 0] in
+  C16_cq_run.spec_b (mkcq ts 0 cons db [] [] [CE 1 1 5 (Some 0%N); CE 2 1 5 None] [] db true) = false /\
+  C16_cq_run.spec_b (mkcq ts 0 cons db [] [] [CE 1 1 5 (Some 0%N)] [] db true) = false /\
+  C16_cq_run.spec_b (mkcq ts 0 cons db [] [] [CE 1 1 5 (Some 1%N)] [(2%N, [ASetErr 1 true; ACancel true])] [DB 1 1 5 true 0; DB 2 4 5 false 1] true) = false.
+Proof. exact cq_example_rejected. Qed.
+Print Assumptions C16_cq_example_rejected.
